@@ -218,6 +218,14 @@ def known_class(op, kind):
             return 'F3'
         if toks[2] in ('ctor', 'parse') and ill and kind == 'spec' and any(0x25 in u for u in ill):
             return 'F4'
+    if toks[0] == 'rt' and len(toks) == 4 and toks[1] == 'windows' and kind == 'pred:fix':
+        import unicodedata
+        try:
+            t = ''.join(chr(int(x, 16)) for x in toks[3].split(',')) if toks[3] != '-' else ''
+        except (ValueError, OverflowError):
+            t = ''
+        m = re.match(r'^[\\/]{2}(?:[?.][\\/][uU][nN][cC][\\/])?([^\\/]+)[\\/]', t)
+        if m and unicodedata.normalize('NFKC', m.group(1)).lower() == 'localhost': return 'F6'
     return None
 
 # --------------------------------------------------------------------------- main
@@ -345,6 +353,7 @@ def main():
         seen_cases = set()
         for i in range(n):
             res = compare_line(lines[i], cpp[i], lean[i])
+            res.sort(key=lambda kd: 1 if kd[0] == 'hidden' else 0)   # a public divergence on the same line takes precedence
             if lines[i] != 'case':
                 distinct.add(cpp[i].split(' @@')[0])
             for (kind, detail) in res:
@@ -359,11 +368,21 @@ def main():
                 found = kind != 'hidden'
                 if kind == 'hidden':
                     # search for a public manifestation: probe every object after the failing history
-                    aug = small + ['probe 0', 'probe 1', 'dump 0', 'dump 1']
-                    c2, _, _, l2 = runner.run(aug)
-                    for j in range(len(small), min(len(c2), len(aug))):
-                        r2 = [k for (k, _) in compare_line(aug[j], c2[j], l2[j]) if k != 'hidden']
-                        if r2: small = aug[:j + 1]; found = True; detail += '\npublic manifestation: ' + c2[j][:300]; break
+                    # (stale bookkeeping shows itself in a LATER operation: probes, a further params edit, a sort)
+                    followups = [['probe 0'], ['probe 1'], ['dump 0'], ['dump 1'], ['sp 0 sort', 'dump 0'], ['sp 1 sort', 'dump 1'],
+                                 ['sp 0 append 8 7a 8 31', 'dump 0'], ['sp 1 append 8 7a 8 31', 'dump 1'], ['psp 0 sort'], ['psp 1 sort'],
+                                 ['set 0 pathname 8 2f,2e,2e,2f,78', 'dump 0'], ['set 1 pathname 8 2f,2e,2e,2f,78', 'dump 1'],
+                                 ['parse 2 8 2e,2e,2f,79 s0', 'dump 2'], ['parse 2 8 2e,2e,2f,79 s1', 'dump 2']]
+                    for fu in followups:
+                        aug = small + fu
+                        try:
+                            c2, _, _, l2 = runner.run(aug)
+                        except Exception:
+                            continue
+                        for j in range(len(small), min(len(c2), len(aug))):
+                            r2 = [k for (k, _) in compare_line(aug[j], c2[j], l2[j]) if k != 'hidden']
+                            if r2: small = aug[:j + 1]; found = True; detail += '\npublic manifestation (%s): %s' % (r2[0], c2[j][:300]); break
+                        if found: break
                     if not found: detail += '\ncorrespondence (hidden state: offsets / flags / segment count / params list) no longer checks for operation: ' + readable(small[-1])
                 violations.append((kind, small, '%s\n%s' % (kind, detail[:3000]), found))
         if crash_at is not None and crash_at < len(lines):
